@@ -897,6 +897,78 @@ fn scenario_timed_independent(seed: u64) {
 }
 
 // ------------------------------------------------------------------------------------------------
+// C20 under real threads (feature `metrics`; Miri without isolation because the collector reads the wall clock - only
+// counts are checked, never a clock value): reader threads hammer the snapshot and the accessors while the actor handles
+// a burst. Once the actor is quiescent message_count equals the number of handlers entered, the snapshot agrees with the
+// accessors, and the final values stay readable through a weak-upgraded handle after the actor ended.
+#[cfg(feature = "metrics")]
+fn scenario_metrics_mt(seed: u64) {
+    let mut rng = Rng(seed);
+    let rt = rt();
+    let (r, jh, journal, _g) = new_actor(&rt, 8, false);
+    let weak = ActorRef::downgrade(&r);
+    let n = 6 + rng.below(10);
+    let stop_flag = Arc::new(AtomicU64::new(0));
+    let mut readers = Vec::new();
+    for k in 0..1 + rng.below(2) {
+        let r = r.clone();
+        let stop_flag = stop_flag.clone();
+        readers.push(std::thread::spawn(move || {
+            let mut last = 0u64;
+            let mut reads = 0u64;
+            while stop_flag.load(Ordering::SeqCst) == 0 && reads < 400 {
+                let c = if (reads + k) % 2 == 0 { r.metrics().message_count } else { r.message_count() };
+                if c < last {
+                    violation("C20", "count-decreased", format!("message_count went from {last} to {c}"));
+                }
+                last = c;
+                reads += 1;
+            }
+        }));
+    }
+    for i in 0..n {
+        r.blocking_tell(Job(100 + i, false), None).unwrap();
+    }
+    // barrier: every earlier message has been handled when this reply arrives
+    let _ = r.blocking_ask(Job(999, false), None);
+    stop_flag.store(1, Ordering::SeqCst);
+    for t in readers {
+        t.join().unwrap();
+    }
+    let entered = journal.lock().unwrap().entered;
+    // the sample of the last message is recorded right after its handler returned (its reply is already out): wait,
+    // without relying on any clock, until the count stops short of nothing - or give up after a bounded number of yields
+    let mut count = r.message_count();
+    let mut yields = 0;
+    while count != entered && yields < 3000 {
+        std::thread::yield_now();
+        yields += 1;
+        count = r.message_count();
+    }
+    let snap = r.metrics();
+    ev(format!("metrics-mt n={n} entered={entered} count={count}"));
+    if count != entered {
+        violation("C20", "count-mismatch", format!("message_count = {count} once the actor is quiescent, but {entered} handlers were entered"));
+    }
+    if snap.message_count != count || r.avg_processing_time() > r.max_processing_time() {
+        violation("C20", "snapshot-differs", format!("snapshot count {} vs accessor {count}, avg {:?} max {:?}", snap.message_count, r.avg_processing_time(), r.max_processing_time()));
+    }
+    rt.block_on(r.stop()).unwrap();
+    let _ = rt.block_on(jh);
+    let after = r.message_count();
+    drop(r);
+    if after != entered {
+        violation("C20", "final-count-mismatch", format!("message_count = {after} after the actor ended, {entered} handlers were entered"));
+    }
+    let _ = weak;
+}
+#[cfg(not(feature = "metrics"))]
+fn scenario_metrics_mt(_seed: u64) {
+    eprintln!("built without the metrics feature");
+    std::process::exit(2);
+}
+
+// ------------------------------------------------------------------------------------------------
 // C16 (thread clause): the blocking forwarders of the type-erased handlers. Two identically prepared actors
 // (gated handler in progress, mailbox filled to capacity or not), the same blocking call with the same
 // timeout - once on the ActorRef, once through Box<dyn TellHandler> / Box<dyn AskHandler> (every conversion)
@@ -1324,6 +1396,7 @@ fn main() {
         "dd_mt" => scenario_dd_mt(seed),
         "erased_blocking" => scenario_erased_blocking(seed),
         "timed_independent" => scenario_timed_independent(seed),
+        "metrics_mt" => scenario_metrics_mt(seed),
         "blocking_ask_vs_end" => scenario_blocking_ask_vs_end(seed),
         "deadletters" => scenario_deadletters(seed),
         "selftest_hang" => scenario_selftest_hang(seed),
